@@ -39,7 +39,17 @@ func runDates(c *core.Ctx, d, m, y, T int) (*MOut, error) {
 }
 
 func checkDates(c *core.Ctx, d, m, y, T int) {
-	out, err := runDates(c, d, m, y, T)
+	var out *MOut
+	var err error
+	if c.Idx%3 == 1 {
+		// the calendar is the proleptic Gregorian one wherever the process runs: a third of the cases run with another
+		// local time zone (daylight saving, far east / west of Greenwich), locale and working directory
+		zone := WithOtherEnvironment(c.Idx/3, func() { out, err = runDates(c, d, m, y, T) })
+		c.Tag("env:other-time-zone")
+		c.Count("runs_in_zone/"+zone, 1)
+	} else {
+		out, err = runDates(c, d, m, y, T)
+	}
 	if err != nil {
 		c.Violate("prepare", "DateGenerator", err.Error())
 		return
